@@ -194,7 +194,9 @@ def run(args):
                 R.spec_fail(dict(kind="swc-radius-profile"), f"SWC radii after set_ncomp({n_new}) {ra.tolist()} != read_swc(ncomp={n_new}) {rb.tolist()}", inp, ra.tolist())
             if not math.isclose(float(cell.branch(b).nodes["length"].sum()), old_len, rel_tol=1e-12):
                 R.spec_fail(dict(kind="length-not-preserved"), "SWC branch length changed", inp, None)
-            groups_after = {g: sorted(set(cell.nodes.loc[np.asarray(v).astype(int), "global_branch_index"].tolist())) for g, v in cell.groups.items()}
+            nrows = len(cell.nodes)
+            groups_after = {g: (sorted(set(cell.nodes.loc[np.asarray(v).astype(int), "global_branch_index"].tolist())) if (len(v) == 0 or np.asarray(v).max() < nrows) else "labels out of range")
+                            for g, v in cell.groups.items()}
             if groups_after != groups_before:
                 R.spec_fail(dict(kind="group-branch-membership-changed"), f"SWC type groups changed {groups_before} -> {groups_after}", inp, None)
     finally:
